@@ -32,7 +32,7 @@ def grammar():
     return Grammar(
         atoms,
         arith=('+', '**'), cmp=('=', '<'), conn=('and', 'implies'), neg=True, un_minus=True,
-        funcs={'abs': ('N', 'N'), 'len': ('A', 'N'), 'sum': ('SET', 'N'), 'max': ('R', 'N')},
+        funcs={'abs': ('N', 'N'), 'len': ('A', 'N'), 'sum': ('SET', 'N'), 'max': ('R', 'N'), 'int': ('B', 'N')},
         quants=('forall', 'exists'), domains=('A', 'SET', 'R'), qvars=('a', 'i'),
         set_widths=(1, 2, 3), range_flags=((False, False), (True, False)),
         inclusion=('A', 'SET', 'R'), index=True,
@@ -304,7 +304,7 @@ def replay(w):
 def describe(tier):
     b = bounds(tier)
     return {
-        'rule': f"every Bool/Num term with <= {b['nodes']} nodes over atoms x @a @a.f @b.f m.f 1 p @a.p xs @a.xs with + ** = < and implies not unary-minus abs len sum max, sets (1-3), ranges, indexing xs[..], inclusion, forall/exists binding a or i over arrays/sets/ranges: markers therefore occur in every child slot of every expression node kind; each accepted term is taken as expression (parser and API), predicate, event without alias / with alias a / zz, 3-wide event disjunction, pattern and property; plus a family of 20 multi-event properties and a specification for scope/pattern/property/specification-level iterate() and aliases(). Every queried expression / predicate / event is then copied (replace_var_reference, replace_self_reference, negate, but) and the copy is queried too (call sequences of depth 2). A state = one real object queried; a transition = one group of query calls on it.",
+        'rule': f"every Bool/Num term with <= {b['nodes']} nodes over atoms x @a @a.f @b.f m.f 1 p @a.p xs @a.xs with + ** = < and implies not unary-minus abs len sum max int(bool), sets (1-3), ranges, indexing xs[..], inclusion, forall/exists binding a or i over arrays/sets/ranges: markers therefore occur in every child slot of every expression node kind; each accepted term is taken as expression (parser and API), predicate, event without alias / with alias a / zz, 3-wide event disjunction, pattern and property; plus a family of 20 multi-event properties and a specification for scope/pattern/property/specification-level iterate() and aliases(). Every queried expression / predicate / event is then copied (replace_var_reference, replace_self_reference, negate, but) and the copy is queried too (call sequences of depth 2). A state = one real object queried; a transition = one group of query calls on it.",
         'bounds': b,
         'exhaustive': True,
         'assumptions': ['attrs.fields() order is declaration order; the generic walk treats every AST-valued field as a child'],
